@@ -294,9 +294,9 @@ Lemma simplify_match_inv cx v mods fe neg rw :
   In rw (simplify_match cx v mods fe neg) ->
   exists pat,
     last mods [] = 77 :: pat /\ mods <> [] /\ fe = true /\
-    is_defined (cx_seen_prefs cx) (cx_var cx v) = true /\
+    is_defined (cx_seen_prefs cx) (cx_var cx v) = true /\ pat <> [] /\
     let ms := map classify_mod (removelast mods) ++ [ModM pat] in
-    let may := match pat with [] => false | _ => match cx_mmn cx pat with MmnYes => true | _ => false end end in
+    let may := match cx_mmn cx pat with MmnYes => true | _ => false end in
     rw_kind rw = KMatch /\
     rw_from_c rw = Some (if neg then CNot (CEmpty v ms) else CEmpty v ms) /\
     rw_to_c rw = Some (let inner := if may then CCmp (LExpr v ms) false (LQuoted []) else CLeaf (LExpr v ms) in
@@ -313,13 +313,12 @@ Proof.
   destruct (negb (is_defined (cx_seen_prefs cx) (cx_var cx v))) eqn:Edef; [contradiction|].
   destruct (negb (simple_mod_text (mods_text mods))) eqn:Esimple; [contradiction|].
   apply orb_false_iff in E1 as [Eok _]. apply negb_false_iff in Eok, Efe, Epos, Edef.
-  destruct (match_match_inv _ _ _ _ _ Emm Eok) as [Hlast _]. rewrite Epos in Hlast.
+  destruct (match_match_inv _ _ _ _ _ Emm Eok) as [Hlast Hexact]. rewrite Epos in Hlast.
   intros Hin. exists pattern.
   split; [exact Hlast|]. split; [discriminate|]. split; [exact Efe|]. split; [exact Edef|].
+  destruct pattern as [|pc pr]; [discriminate Hexact|]. split; [discriminate|].
   cbv zeta.
-  destruct pattern as [|pc pr].
-  - destruct Hin as [<-|[]]. repeat split; reflexivity.
-  - destruct (cx_mmn cx (pc :: pr)); [contradiction| |]; destruct Hin as [<-|[]]; repeat split; reflexivity.
+  destruct (cx_mmn cx (pc :: pr)); [contradiction| |]; destruct Hin as [<-|[]]; repeat split; reflexivity.
 Qed.
 
 Lemma check_and_inv cs rw :
